@@ -119,11 +119,21 @@ def check_roundtrip(case):
             old = df.Field(df.Mesh(region=mesh.region, n=mesh.n,
                                    subregions={"stale": df.Region(p1=mesh.region.pmin, p2=mesh.region.pmax)}), nvdim=1, value=1.0)
             old.to_file(path)
+            if case["seed"] % 3 == 0:
+                df.Field.from_file(path)  # ... and was read in this session: the next read returns the file as it is then
             tag("name-used-before")
         with np.errstate(over="ignore"):
             f.to_file(gen.path_arg(path, case["seed"]), representation=rep, extend_scalar=case["extend_scalar"],
                       save_subregions=case["save_subregions"])
         raw = open(path, "rb").read()
+        if case["seed"] % 4 == 0:
+            # the field returned by a read is the caller's: moving its mesh in place, renaming or dropping its subregions
+            # and overwriting its values does not affect what a later read of the same file returns
+            first = df.Field.from_file(path)
+            first.mesh.translate(tuple(float(c) for c in first.mesh.cell), inplace=True)
+            first.mesh.subregions = {}
+            first.array[...] = 0
+            tag("read-modify-read")
         back = df.Field.from_file(gen.path_arg(path, case["seed"] + 1))
         sidecar = os.path.exists(path + ".subregions.json")
     want = expected_values(arr, rep)
